@@ -195,11 +195,14 @@ func (intp *Interpreter) executeOne(obj Object, execProc bool) error {
 	// 	fmt.Println("|-", intp.stackString(), "|", intp.objectString(obj))
 	// }
 
+	// nested is true once this call has been counted in execStackDepth
+	nested := false
 	if execProc {
 		if intp.execStackDepth >= 100 {
 			return intp.e(eExecstackoverflow, "exec stack overflow")
 		}
 		intp.execStackDepth++
+		nested = true
 		defer func() { intp.execStackDepth-- }()
 	}
 
@@ -245,6 +248,16 @@ recurseTail:
 			return err
 		}
 		obj = val
+		if _, isProc := val.(Procedure); isProc && !nested {
+			// Running a procedure by name is a level of execution nesting,
+			// like running it via exec.
+			if intp.execStackDepth >= 100 {
+				return intp.e(eExecstackoverflow, "exec stack overflow")
+			}
+			intp.execStackDepth++
+			nested = true
+			defer func() { intp.execStackDepth-- }()
+		}
 		execProc = true
 		goto recurseTail
 
